@@ -205,7 +205,7 @@ func workerMain() {
 	st.Race = simrt.RaceBuild
 	enc := json.NewEncoder(os.Stdout)
 	warmUp()
-	var hashes []uint64
+	var hashes []string
 	rl := newRaceLog()
 	for run := *fFrom; run < *fTo; run++ {
 		c := generate(*fProp, runSeedFor(*fSeed, *fProp, run), run)
@@ -252,12 +252,17 @@ func workerMain() {
 		for k, v := range cr.notes {
 			st.Notes[k] += v
 		}
+		reachProbes(c, o, st)
 		st.TwinBuilds += cr.tw.builds
 		st.TwinAborted += cr.tw.aborted
 		if nops >= 2 && (nf > 0 || o.Stats.Switches > 0 || len(firsts) >= 2) {
 			st.NonTrivial++
 			h := shapeHash(c)*31 + o.Stats.IlvHash*17 + endStateHash(o)
-			hashes = append(hashes, h)
+			hashes = append(hashes, fmt.Sprintf("n:%x", h))
+			if o.Stats.Switches > 0 {
+				hashes = append(hashes, fmt.Sprintf("i:%x", o.Stats.IlvHash))
+			}
+			hashes = append(hashes, fmt.Sprintf("s:%x", endStateHash(o)))
 		}
 		if len(st.Samples) < 3 && (run-*fFrom) < 50 {
 			if (len(st.Samples) == 0 && len(c.Faults) == 0) || (len(st.Samples) == 1 && len(o.Fired) > 0) || (len(st.Samples) == 2 && nops >= 8) {
@@ -281,6 +286,9 @@ func workerMain() {
 				mc, mv, minimised := c, v, false
 				if !*fNoMin && v.Class != "race" {
 					mc, mv, minimised = minimise(c, v)
+				} else if !*fNoMin && v.Class == "race" && st.Notes["race_cases_minimised"] < 2 {
+					st.Notes["race_cases_minimised"]++
+					mc, minimised = minimiseRace(c, v)
 				}
 				_ = orig
 				kid := ""
@@ -304,13 +312,73 @@ func workerMain() {
 		if err == nil {
 			w := bufio.NewWriter(f)
 			for _, h := range hashes {
-				fmt.Fprintf(w, "%x\n", h)
+				fmt.Fprintln(w, h)
 			}
 			w.Flush()
 			f.Close()
 		}
 	}
 	enc.Encode(&workerMsg{Type: "stats", Stats: st})
+}
+
+// reachProbes counts "this rare condition was hit" events that can be read off
+// the recorded history (DESIGN §3.5).
+func reachProbes(c *Case, o *Outcome, st *runStats) {
+	firstSeen := map[string]bool{}
+	type iv struct {
+		task     int
+		inv, ret uint64
+		name     string
+	}
+	var firsts []iv
+	for _, r := range o.all() {
+		if !r.Done {
+			continue
+		}
+		if r.ErrClass == "exec" {
+			switch {
+			case strings.Contains(r.Err, "expected a safehtml."):
+				st.Fired["data:sanitizer_type_error"]++
+				if len(r.Out) > 0 {
+					st.Notes["sanitizer_error_after_partial_output"]++
+				}
+			case strings.Contains(r.Err, "map has no entry for key"):
+				st.Fired["data:missingkey_error"]++
+			case strings.Contains(r.Err, "nil pointer evaluating"), strings.Contains(r.Err, "can't evaluate field"):
+				st.Fired["data:evaluation_error"]++
+			case strings.Contains(r.Err, "exceeded maximum template depth"):
+				st.Notes["exec_recursion_limit_hit"]++
+			}
+		}
+		if n, ok := execTarget(r); ok {
+			key := fmt.Sprintf("%d/%s", c.opByID(r.OpID).Set, n)
+			if !firstSeen[key] {
+				firstSeen[key] = true
+				if r.Task >= 0 && len(c.Tasks) > 1 {
+					firsts = append(firsts, iv{r.Task, r.Inv, r.Ret, n})
+				}
+				if abortingFault(r) {
+					st.Notes["fault_on_first_execution_of_a_template"]++
+				}
+				if r.ErrClass == "analysis" {
+					st.Notes["first_execution_failed_analysis"]++
+				}
+			} else if r.ErrClass == "analysis" {
+				st.Notes["repeat_call_on_failed_template"]++
+			}
+		}
+	}
+	for i := range firsts {
+		for j := i + 1; j < len(firsts); j++ {
+			a, b := firsts[i], firsts[j]
+			if a.task != b.task && a.inv < b.ret && b.inv < a.ret {
+				st.Notes["overlapping_first_executions"]++
+			}
+		}
+	}
+	if o.Stats.LockBlocks > 0 && len(firsts) >= 2 {
+		st.Notes["runs_with_contended_set_lock"]++
+	}
 }
 
 // classifyCounterfactual re-executes a violating case with the counterfactual
@@ -564,6 +632,8 @@ func coordinatorMain() int {
 	wg.Wait()
 
 	distinct := map[string]bool{}
+	distinctIlv := map[string]bool{}
+	distinctState := map[string]bool{}
 	for _, hf := range hashFiles {
 		f, err := os.Open(hf)
 		if err != nil {
@@ -571,7 +641,15 @@ func coordinatorMain() int {
 		}
 		sc := bufio.NewScanner(f)
 		for sc.Scan() {
-			distinct[sc.Text()] = true
+			t := sc.Text()
+			switch {
+			case strings.HasPrefix(t, "n:"):
+				distinct[t] = true
+			case strings.HasPrefix(t, "i:"):
+				distinctIlv[t] = true
+			case strings.HasPrefix(t, "s:"):
+				distinctState[t] = true
+			}
 		}
 		f.Close()
 		os.Remove(hf)
@@ -641,32 +719,36 @@ func coordinatorMain() int {
 		"rule": "One evaluation = one simulated run: a generated template set, a definition phase and 1-4 simulated caller goroutines issuing API calls under a seeded schedule and fault plan, checked by the property's oracle. " +
 			"A run is non-trivial iff it made >= 2 API calls that were not skipped AND (>= 1 planned fault actually fired OR >= 1 preemption was taken OR >= 2 distinct templates were executed). " +
 			"distinct_nontrivial counts distinct values of hash(case shape [definitions, operations, data, fault plan], interleaving signature [task, site at every switch], abstract end state [first-execution verdict per template, parse/clone outcomes]) among non-trivial runs.",
-		"samples":                  samples,
-		"nontrivial_runs":          total.NonTrivial,
-		"runs_per_hour":            int(float64(total.Runs) / hours),
-		"seeds_per_hour":           int(float64(total.Runs) / hours),
-		"race_build_runs":          raceStats.Runs,
-		"multi_task_runs":          total.MultiTask,
-		"api_calls":                total.Ops,
-		"api_calls_returning_nil":  total.OpsOK,
-		"error_classes":            total.ErrClasses,
-		"logical_steps_total":      total.Steps,
-		"simulated_time_note":      "the code under test has no clock; 'simulated time' is the scheduler's logical step counter (logical_steps_total)",
-		"fault_fired_counts":       total.Fired,
-		"probe_hits":               total.Notes,
-		"preemptions_taken":        total.Switches,
-		"lock_contention_events":   total.LockBlocks,
-		"map_order_decisions":      total.MapKeys,
-		"twin_worlds_built":        total.TwinBuilds,
-		"twin_runs_aborted":        total.TwinAborted,
-		"violating_runs":           total.ViolatingRuns,
-		"known_findings_matched":   knownHit,
-		"new_violation_signatures": newViol,
-		"worker_failures":          infra,
-		"instrumentation":          *fInstr,
-		"components_real":          []string{"github.com/google/safehtml/template (instrumented copy of the current /repo tree: yields, lock hand-off, map-order seam)", "github.com/google/safehtml and internal packages (unmodified)", "GOROOT text/template (instrumented via build overlay)", "text/template/parse, fmt, reflect, html, regexp, sync (unmodified; sync.Pool pinned to always-drop in race builds)"},
-		"components_stubbed":       []string{"io.Writer given to Execute*", "file system (fs.FS, ReadFile, Glob)", "FuncMap functions and data methods", "choice of the running goroutine", "hand-off of contended locks", "map iteration order"},
-		"exhaustive":               false,
+		"samples":                       samples,
+		"nontrivial_runs":               total.NonTrivial,
+		"distinct_interleavings":        len(distinctIlv),
+		"distinct_interleavings_note":   "distinct hashes of the (task, next task, site) sequence at the switch points actually taken, among runs with >= 1 preemption",
+		"distinct_abstract_states":      len(distinctState),
+		"distinct_abstract_states_note": "distinct hashes of the abstract end state: per task, the ordered first-execution verdicts (template name, error class) plus the outcome of every Parse*/Clone call",
+		"runs_per_hour":                 int(float64(total.Runs) / hours),
+		"seeds_per_hour":                int(float64(total.Runs) / hours),
+		"race_build_runs":               raceStats.Runs,
+		"multi_task_runs":               total.MultiTask,
+		"api_calls":                     total.Ops,
+		"api_calls_returning_nil":       total.OpsOK,
+		"error_classes":                 total.ErrClasses,
+		"logical_steps_total":           total.Steps,
+		"simulated_time_note":           "the code under test has no clock; 'simulated time' is the scheduler's logical step counter (logical_steps_total)",
+		"fault_fired_counts":            total.Fired,
+		"probe_hits":                    total.Notes,
+		"preemptions_taken":             total.Switches,
+		"lock_contention_events":        total.LockBlocks,
+		"map_order_decisions":           total.MapKeys,
+		"twin_worlds_built":             total.TwinBuilds,
+		"twin_runs_aborted":             total.TwinAborted,
+		"violating_runs":                total.ViolatingRuns,
+		"known_findings_matched":        knownHit,
+		"new_violation_signatures":      newViol,
+		"worker_failures":               infra,
+		"instrumentation":               *fInstr,
+		"components_real":               []string{"github.com/google/safehtml/template (instrumented copy of the current /repo tree: yields, lock hand-off, map-order seam)", "github.com/google/safehtml and internal packages (unmodified)", "GOROOT text/template (instrumented via build overlay)", "text/template/parse, fmt, reflect, html, regexp, sync (unmodified; sync.Pool pinned to always-drop in race builds)"},
+		"components_stubbed":            []string{"io.Writer given to Execute*", "file system (fs.FS, ReadFile, Glob)", "FuncMap functions and data methods", "choice of the running goroutine", "hand-off of contended locks", "map iteration order"},
+		"exhaustive":                    false,
 	}
 	ev.Assumptions = []string{
 		"sampling, not proof: only the generated template sets, histories, schedules and fault plans were explored",
